@@ -1,17 +1,19 @@
 (* C20: the concrete oracle used by the generated cases (Run/SC20.v) accepts
    every trace of the concrete model used by the generated cases (Run/RC20.v). *)
 From Coq Require Import ZArith List Bool Lia.
-From DM Require Import Gen.KMemo Spec.Memo Model.Memo Proofs.MemoFacts Run.SC20 Run.RC20.
+From DM Require Import Gen.KMemo Spec.Memo Model.Memo Proofs.MemoFacts Proofs.MemoSerialFacts Run.SC20 Run.RC20.
 Import ListNotations.
 Open Scope Z_scope.
 
-Lemma ckey_inj : forall a b, ckey a = ckey b -> a = b.
-Proof. intros a b H. apply Nat2Z.inj. exact H. Qed.
+Lemma ckey_inj : forall a b, ckey a = ckey b -> cf a = cf b.
+Proof. intros a b H. apply Nat2Z.inj in H. subst. reflexivity. Qed.
 
 Lemma oracle_accepts_model : forall sizes ops,
   Forall (new_ok nat Z Z ckey) ops -> oracle sizes (model_trace sizes ops) = true.
 Proof.
   intros sizes ops H. unfold oracle, model_trace.
+  rewrite (serial_trace_w0 nat Z Z Z Z cf ckey cthunks (fun v => v) (fun p => p) (csize sizes) Z.eqb Z.eqb
+             (fun v => eq_refl)).
   exact (model_accepted_w0 nat Z Z Z cf ckey cthunks (csize sizes) Z.eqb Z.eqb Z.eqb
            Z.eqb_eq Z.eqb_eq Z.eqb_refl ckey_inj ops H).
 Qed.
